@@ -103,7 +103,7 @@ MAIN = {
 # the repository, flip the corresponding flag here (the oracle of harness/props/C11.py follows EXPECT).
 EXPECT = {
     'possible_tolerant': False,       # /tmp/c11_fixA.patch: `duration >= rise + fall - eps`, flat_time = max(..., 0.0)
-    'flat_checks_duration': False,    # /tmp/c11_fixC.patch: area + flat_time + duration must be consistent
+    'flat_checks_duration': True,     # committed to /repo as 14663aa (was /tmp/c11_fixC.patch): area + flat_time + duration must be consistent
 }
 POSSIBLE = {
     False: {'possible': ['duration >= rise_time + fall_time and abs(amplitude2) <= max_grad'],
